@@ -87,3 +87,50 @@ for g in GROUPS:
                     for i, (a, b) in enumerate(zip(grads, grads2)):
                         env.eq(f'last_cotangent_slot_ignored{i}', a, b)
         mk()
+
+
+# --------------------------------------------------------------------------
+# Exp / Log
+# --------------------------------------------------------------------------
+REG = ('generic', 'zero', 'tiny', 'subeps', 'small', 'large')
+
+
+def alg_input(env, g, name='x'):
+    """algebra element with per-block regimes (rotation block may be tiny/zero)"""
+    T = env.T
+    if g == 'SO3': return env.vec(name, 3, regimes=REG), None
+    if g == 'SE3':
+        tau, phi = env.vec(name + 't', 3), env.vec(name, 3, regimes=REG)
+        return T.cat([tau, phi], -1), phi
+    if g == 'RxSO3':
+        phi, sg = env.vec(name, 3, regimes=REG), env.scalar(name + 's', regimes=('generic', 'zero', 'tiny', 'small'))
+        return T.cat([phi, sg], -1), phi
+    tau, phi, sg = env.vec(name + 't', 3), env.vec(name, 3, regimes=REG), env.scalar(name + 's', regimes=('generic', 'zero', 'tiny', 'small'))
+    return T.cat([tau, phi, sg], -1), phi
+
+
+for g in ['SO3', 'SE3', 'RxSO3']:
+    def mk(g=g):
+        a = S.ALG[g]
+        cls = f'{a}_Exp'
+        @obligation(f'C04.{cls}.backward', functions=[f'{OPS}:{cls}.forward', f'{OPS}:{cls}.backward', f'{OPS}:{a}_Jl'] +
+                    ([f'{OPS}:calcQ'] if g == 'SE3' else []), tol=2e-5, max_paths=16)
+        def ob(env):
+            op = env.load(OPS); T = env.T
+            F = getattr(op, cls)
+            x, phi = alg_input(env, g)
+            rot = x if phi is None else phi
+            theta = T.linalg.norm(rot, dim=-1)
+            env.angle_base(theta / 2)
+            cot = env.vec('g', S.DIM[g])
+            out, (grad,) = env.backward(F, [x], cot)
+            J = env.jacobian(F.forward, x)                                   # (dim, dof)
+            Dt = T.stack([S.tangent_coords(T, g, out, J[:, j]) for j in range(S.DOF[g])], -1)
+            e = cot[0:S.DOF[g]] @ Dt
+            if theta > env.eps(x):
+                env.eq('grad_is_left_jacobian_pullback', grad, e)
+            else:
+                # Taylor path: forward and Jl are both truncated series; they agree up to the stated order
+                env.eq_order('grad_taylor_agrees_to_order3', grad, e, rot, 4)
+            env.safe('finite', grad)
+    mk()
